@@ -72,12 +72,16 @@ func (f *Mapc) Call(s *slip.Scope, args slip.List, depth int) (result slip.Objec
 				l2 := args[i].(slip.List)
 				ca[i-1] = l2[n]
 			}
-			_ = caller.Call(s, ca, d2)
+			if r := caller.Call(s, ca, d2); slip.IsExit(r) {
+				return r
+			}
 		}
 	} else {
 		// The most common case.
 		for _, v := range list {
-			_ = caller.Call(s, slip.List{v}, d2)
+			if r := caller.Call(s, slip.List{v}, d2); slip.IsExit(r) {
+				return r
+			}
 		}
 	}
 	return list
